@@ -63,10 +63,16 @@ def _run_ckd(node, i, I, via="ckd"):
             elif via == "address_generator" and i < 40:
                 from btc_hd_wallet.base_wallet import BaseWallet
                 g = BaseWallet(master=node, testnet=node.testnet).address_generator(node)
-                next(g)
+                y = next(g)
                 if i:
-                    g.send(i)
-                r = [c for c in node.children if c.index == i][-1]
+                    y = g.send(i)
+                # (the generator hands out (path, address) only; the node it derived is fetched again through ckd under the same
+                #  PRF plan - the `children` container is the library's private bookkeeping and is not relied upon.  If ckd
+                #  refuses what the generator has just handed out, the hand-out itself is what was returned.)
+                try:
+                    r = node.ckd(index=i)
+                except Exception:  # noqa
+                    r = {"address_generator_yielded": list(y)}
             else:
                 r = node.ckd(index=i)
             err = None
@@ -98,7 +104,7 @@ def judge_fault_ckd(ctx, case):
     except rb32.InvalidChild:
         pass
     ok = err is not None
-    obs = err if ok else bridge.node_obs(r)
+    obs = err if ok else (bridge.node_obs(r) if hasattr(r, "key") else r)
     if ok and bridge.node_obs(node) != ident0:
         ok, obs = False, {"parent_before": ident0, "parent_after": bridge.node_obs(node)}
     return ctx.judge(mon, ok, case, "raise", obs, cls="%s|%s|%s|%s" % (case["ftag"], "hard" if i >= H else "norm", case.get("form", "ctor"), via),
@@ -116,6 +122,8 @@ def judge_control_ckd(ctx, case):
     except rb32.InvalidChild:
         return None
     r, err, used = _run_ckd(node, i, I, case.get("via", "ckd"))
+    if err is None and not hasattr(r, "key"):
+        err = RuntimeError("ckd refused a child the address generator handed out: %r" % (r,))
     if err is not None:
         return ctx.judge("control", False, case, exp.fields(), err, cls="ctl|%s|%s|%s" % (case["side"], case["ftag"], case.get("via", "ckd")), outcome="raised",
                          mech="C18.control.over_rejects")
